@@ -49,6 +49,7 @@ type Ctx struct {
 	Trig  []TrigPair // (angle, sin, cos) triples introduced by the executor
 	TrigOf map[int]TrigPair // by angle term id (pairs may be arbitrary terms, e.g. for acos)
 	InZeroPi map[int]bool   // angle terms known to lie in [0, pi]
+	VarBounds map[string][2]int64 // declared ranges of integer inputs (vfInt): used by syntactic interval analysis
 	Prefer   []*Term        // soft facts used only to pick replayable models (e.g. f32(x) = x)
 	preferred map[int]bool
 	// hooks installed by the executor
